@@ -502,7 +502,7 @@ Lemma assoc_del_rel R k fs fs' : fields_rel R fs fs' -> fields_rel R (assoc_del 
 Proof.
   intros H. induction H as [|[k1 a] [k2 b] r r' [Hk Hv] Hr IH]; cbn [assoc_del]; [constructor|].
   cbn [fst snd] in Hk, Hv. subst k2. destruct (String.eqb k k1); [exact IH|].
-  constructor; [split; assumption|exact IH].
+  constructor; [split; [reflexivity|exact Hv]|exact IH].
 Qed.
 
 Lemma drop_types_rel R fs fs' : fields_rel R fs fs' -> fields_rel R (drop_types fs) (drop_types fs').
@@ -683,3 +683,199 @@ Definition side (k : kind) (fs fs' : list (string * pval)) : Prop :=
   Forall (fun f => fld_no0d f fs /\ fld_no0d f fs') (no0d_names k) /\
   (k = KCubaLIF -> opshape_stable fs fs') /\
   (k = KConv2d -> conv2d_cond fs fs').
+
+(* ---- reading fields ------------------------------------------------------------------------------- *)
+Lemma fld_shape_eq f fs fs' : fields_sim fs fs' -> shape_stable f fs fs' -> fld_shape f fs = fld_shape f fs'.
+Proof.
+  intros Hfs Hst. unfold shape_stable, fld_shape in *. pose proof (fld_rel _ _ _ f Hfs) as Hf.
+  destruct (fld f fs) as [a|e] eqn:Ea, (fld f fs') as [b|e'] eqn:Eb; cbn [res_rel bind] in *; try contradiction.
+  - apply vsim_shape_attr; assumption.
+  - apply fld_err in Ea, Eb. congruence.
+Qed.
+
+Lemma fld_no0d_ok f fs v : fld_no0d f fs -> fld f fs = Ok v -> is0d v = false.
+Proof. unfold fld_no0d, fld. destruct (assoc f fs); intros H E; inversion E; subst; exact H. Qed.
+
+Lemma mapM_fld_shape_eq fs fs' names :
+  fields_sim fs fs' -> Forall (fun f => shape_stable f fs fs') names ->
+  mapM (fun f => fld_shape f fs) names = mapM (fun f => fld_shape f fs') names.
+Proof.
+  intros Hfs H. induction H as [|f r Hf Hr IH]; cbn [mapM]; [reflexivity|].
+  rewrite (fld_shape_eq _ _ _ Hfs Hf), IH. reflexivity.
+Qed.
+
+(* ---- elementwise kinds: Scale, Delay, Threshold, I, IF, LI, LIF (and the first half of CubaLIF) ---- *)
+Lemma elementwise_cases k fs fs' names :
+  fields_sim fs fs' -> Forall (fun f => shape_stable f fs fs') names ->
+  (exists e, elementwise k fs names = Err e /\ elementwise k fs' names = Err e) \/
+  (exists sh, elementwise k fs names = Ok (Leaf k (drop_types fs) (arr_ty "input" sh) (arr_ty "output" sh)) /\
+              elementwise k fs' names = Ok (Leaf k (drop_types fs') (arr_ty "input" sh) (arr_ty "output" sh))).
+Proof.
+  intros Hfs Hst. unfold elementwise. rewrite (mapM_fld_shape_eq _ _ _ Hfs Hst).
+  destruct (mapM (fun f => fld_shape f fs') names) as [shapes|e]; cbn [bind]; [|left; eexists; split; reflexivity].
+  destruct (all_same shapes); [|left; eexists; split; reflexivity].
+  destruct shapes as [|sh r]; [left; eexists; split; reflexivity|].
+  right. exists sh. split; reflexivity.
+Qed.
+
+Lemma leaf_sim_exact k fs fs' ti to :
+  fields_sim fs fs' -> node_sim (Leaf k (drop_types fs) ti to) (Leaf k (drop_types fs') ti to).
+Proof.
+  intros Hfs. cbn [node_sim]. split; [reflexivity|]. split; [|split; apply ty_rel_refl].
+  apply fields_sim_frel, drop_types_rel, Hfs.
+Qed.
+
+Theorem elementwise_sim k fs fs' names :
+  fields_sim fs fs' -> Forall (fun f => shape_stable f fs fs') names ->
+  res_sim (elementwise k fs names) (elementwise k fs' names).
+Proof.
+  intros Hfs Hst. destruct (elementwise_cases k _ _ _ Hfs Hst) as [(e & -> & ->)|(sh & -> & ->)]; [exact I|].
+  apply leaf_sim_exact, Hfs.
+Qed.
+
+(* ---- Affine / Linear ------------------------------------------------------------------------------ *)
+Theorem matvec_sim k fs fs' :
+  fields_sim fs fs' -> shape_stable "weight" fs fs' -> res_sim (matvec k fs) (matvec k fs').
+Proof.
+  intros Hfs Hst. unfold matvec. rewrite (fld_shape_eq _ _ _ Hfs Hst).
+  destruct (fld_shape "weight" fs') as [w|e]; cbn [bind]; [|exact I].
+  destruct (Nat.ltb (length w) 2); [exact I|]. apply leaf_sim_exact, Hfs.
+Qed.
+
+(* ---- CubaLIF ----------------------------------------------------------------------------------------- *)
+Theorem cubalif_sim fs fs' :
+  fields_sim fs fs' -> side KCubaLIF fs fs' -> res_sim (post_init KCubaLIF fs) (post_init KCubaLIF fs').
+Proof.
+  intros Hfs (Hst & _ & Hop & _). specialize (Hop eq_refl). cbn [shape_names] in Hst.
+  unfold post_init.
+  destruct (elementwise_cases KCubaLIF _ _ _ Hfs Hst) as [(e & -> & ->)|(sh0 & -> & ->)]; [exact I|].
+  cbn [bind].
+  assert (Hvt : shape_stable "v_threshold" fs fs').
+  { do 4 (inversion Hst as [|? ? _ Hst']; clear Hst; rename Hst' into Hst). inversion Hst; assumption. }
+  rewrite (fld_shape_eq _ _ _ Hfs Hvt).
+  destruct (fld_shape "v_threshold" fs') as [sh|e]; cbn [bind]; [|exact I].
+  pose proof (fld_rel _ _ _ "w_in" Hfs) as Hw. unfold opshape_stable in Hop. unfold fld in *.
+  destruct (assoc "w_in" fs) as [w|], (assoc "w_in" fs') as [w'|]; cbn [res_rel bind] in *; try contradiction; [|exact I].
+  rewrite (vsim_operand_shape _ _ Hw Hop).
+  destruct (operand_shape w') as [wsh|e]; cbn [bind]; [|exact I].
+  destruct (broadcast_shapes sh wsh) as [r|]; [|exact I].
+  destruct (shape_eqb r sh); [|exact I].
+  cbn [res_sim res_rel node_sim]. split; [reflexivity|]. split; [|split; apply ty_rel_refl].
+  apply fields_sim_frel. apply assoc_set_rel; [apply drop_types_rel, Hfs|apply vs_refl].
+Qed.
+
+(* ---- Input / Output / Flatten ---------------------------------------------------------------------- *)
+Lemma assoc_norm_tys key t : assoc key (norm_tys t) = option_map tyv_norm (assoc key t).
+Proof.
+  induction t as [|[k v] r IH]; cbn [norm_tys map assoc fst snd]; [reflexivity|].
+  destruct (String.eqb key k); [reflexivity|exact IH].
+Qed.
+
+Lemma norm_tys_assoc key t t' : norm_tys t = norm_tys t' ->
+  match assoc key t, assoc key t' with
+  | Some v, Some v' => tyv_norm v = tyv_norm v'
+  | None, None => True
+  | _, _ => False
+  end.
+Proof.
+  intros H. pose proof (assoc_norm_tys key t) as A. rewrite H, assoc_norm_tys in A.
+  destruct (assoc key t), (assoc key t'); cbn in A; try discriminate; [inversion A; reflexivity|exact I].
+Qed.
+
+Ltac fld_step Hfs f v v' Hv :=
+  let H := fresh "H" in
+  pose proof (fld_rel _ _ _ f Hfs) as H;
+  let E := fresh "E" in let E' := fresh "E" in
+  destruct (fld f _) as [v|] eqn:E; [|destruct (fld f _) as [v'|] eqn:E'; [contradiction H|exact I]];
+  destruct (fld f _) as [v'|] eqn:E'; [|contradiction H];
+  cbn [res_rel] in H; cbn [bind]; rename H into Hv.
+
+Theorem input_sim fs fs' :
+  fields_sim fs fs' -> side KInput fs fs' -> res_sim (post_init KInput fs) (post_init KInput fs').
+Proof.
+  intros Hfs (_ & Hz & _ & _). cbn [no0d_names] in Hz. inversion Hz as [|? ? [Hz1 Hz2] _]; subst. clear Hz.
+  unfold post_init, res_sim.
+  fld_step Hfs "input_type" x x' Hx.
+  pose proof (vsim_parse_shape _ _ "input" Hx (fld_no0d_ok _ _ _ Hz1 E) (fld_no0d_ok _ _ _ Hz2 E0)) as Hp.
+  destruct (parse_shape x "input") as [tin|], (parse_shape x' "input") as [tin'|]; cbn [res_rel bind] in *;
+    try contradiction; [|exact I].
+  pose proof (norm_tys_assoc "input" _ _ Hp) as Ha.
+  destruct (assoc "input" tin) as [v|], (assoc "input" tin') as [v'|]; try contradiction; [|exact I].
+  cbn [node_sim loose_in loose_out ty_rel ty_norm option_map map fst snd].
+  split; [reflexivity|]. split; [apply fields_sim_frel, drop_types_rel, Hfs|].
+  split; [f_equal; exact Hp|rewrite Ha; reflexivity].
+Qed.
+
+Theorem output_sim fs fs' :
+  fields_sim fs fs' -> side KOutput fs fs' -> res_sim (post_init KOutput fs) (post_init KOutput fs').
+Proof.
+  intros Hfs (_ & Hz & _ & _). cbn [no0d_names] in Hz. inversion Hz as [|? ? [Hz1 Hz2] _]; subst. clear Hz.
+  unfold post_init, res_sim.
+  fld_step Hfs "output_type" x x' Hx.
+  pose proof (vsim_parse_shape _ _ "output" Hx (fld_no0d_ok _ _ _ Hz1 E) (fld_no0d_ok _ _ _ Hz2 E0)) as Hp.
+  destruct (parse_shape x "output") as [tout|], (parse_shape x' "output") as [tout'|]; cbn [res_rel bind] in *;
+    try contradiction; [|exact I].
+  pose proof (norm_tys_assoc "output" _ _ Hp) as Ha.
+  destruct (assoc "output" tout) as [v|], (assoc "output" tout') as [v'|]; try contradiction; [|exact I].
+  cbn [node_sim loose_in loose_out ty_rel ty_norm option_map map fst snd].
+  split; [reflexivity|]. split; [apply fields_sim_frel, drop_types_rel, Hfs|].
+  split; [rewrite Ha; reflexivity|f_equal; exact Hp].
+Qed.
+
+Lemma tyv_norm_cases v v' : tyv_norm v = tyv_norm v' ->
+  (v = TNone /\ v' = TNone) \/ (v = TOther /\ v' = TOther) \/
+  (exists l, (v = TArr l \/ v = TSeq l) /\ (v' = TArr l \/ v' = TSeq l)).
+Proof.
+  destruct v, v'; cbn; intros H; try discriminate; inversion H; subst; timeout 20 eauto 8.
+Qed.
+
+Theorem flatten_sim fs fs' :
+  fields_sim fs fs' -> side KFlatten fs fs' -> res_sim (post_init KFlatten fs) (post_init KFlatten fs').
+Proof.
+  intros Hfs (_ & Hz & _ & _). cbn [no0d_names] in Hz.
+  inversion Hz as [|? ? [Hz1 Hz2] Hz']; subst. clear Hz.
+  inversion Hz' as [|? ? [Hs1 Hs2] Hz]; subst. clear Hz'.
+  inversion Hz as [|? ? [He1 He2] _]; subst. clear Hz.
+  unfold post_init, res_sim.
+  fld_step Hfs "input_type" x x' Hx.
+  pose proof (vsim_parse_shape _ _ "input" Hx (fld_no0d_ok _ _ _ Hz1 E) (fld_no0d_ok _ _ _ Hz2 E0)) as Hp.
+  destruct (parse_shape x "input") as [tin|], (parse_shape x' "input") as [tin'|]; cbn [res_rel bind] in *;
+    try contradiction; [|exact I].
+  pose proof (norm_tys_assoc "input" _ _ Hp) as Ha.
+  destruct (assoc "input" tin) as [v|], (assoc "input" tin') as [v'|]; try contradiction; [|exact I].
+  assert (Hrest : forall sh,
+    res_rel node_sim
+      (do sd <- fld "start_dim" fs; do ed <- fld "end_dim" fs;
+       match int_view sd, int_view ed with
+       | Some s, Some e =>
+         let out := flatten_out sh s e in
+         if prodZ sh =? prodZ out then Ok (Leaf KFlatten (drop_types fs) (Some tin) (arr_ty "output" out))
+         else Err ValueError
+       | _, _ => Err TypeError
+       end)
+      (do sd <- fld "start_dim" fs'; do ed <- fld "end_dim" fs';
+       match int_view sd, int_view ed with
+       | Some s, Some e =>
+         let out := flatten_out sh s e in
+         if prodZ sh =? prodZ out then Ok (Leaf KFlatten (drop_types fs') (Some tin') (arr_ty "output" out))
+         else Err ValueError
+       | _, _ => Err TypeError
+       end)).
+  { intros sh.
+    fld_step Hfs "start_dim" sd sd' Hsd. fld_step Hfs "end_dim" ed ed' Hed.
+    rewrite <- (vsim_int_view _ _ Hsd (fld_no0d_ok _ _ _ Hs1 E1) (fld_no0d_ok _ _ _ Hs2 E2)).
+    rewrite <- (vsim_int_view _ _ Hed (fld_no0d_ok _ _ _ He1 E3) (fld_no0d_ok _ _ _ He2 E4)).
+    destruct (int_view sd) as [s|]; [|exact I]. destruct (int_view ed) as [e|]; [|exact I].
+    cbv zeta. destruct (prodZ sh =? prodZ (flatten_out sh s e)); [|exact I].
+    cbn [res_rel node_sim loose_in loose_out ty_rel ty_norm option_map].
+    split; [reflexivity|]. split; [apply fields_sim_frel, drop_types_rel, Hfs|].
+    split; [f_equal; exact Hp|reflexivity]. }
+  destruct (tyv_norm_cases _ _ Ha) as [[-> ->]|[[-> ->]|(l & [-> | ->] & [-> | ->])]]; cbn [tyv_nums];
+    try exact I; try apply Hrest.
+  apply leaf_sim_exact, Hfs.
+Qed.
+
+(* ---- pools -------------------------------------------------------------------------------------------- *)
+Theorem pool_sim k fs fs' :
+  k = KSumPool2d \/ k = KAvgPool2d -> fields_sim fs fs' -> res_sim (post_init k fs) (post_init k fs').
+Proof. intros [-> | ->] Hfs; apply leaf_sim_exact, Hfs. Qed.
